@@ -165,6 +165,9 @@ func (x *exec) callCommon(st *State, fr *Frame, ins ssa.Instruction, c *ssa.Call
 		e.assumeValid(st, r)
 		rets = append(rets, r)
 	}
+	if ev := st.trace; len(ev) > 0 && ev[len(ev)-1].Site == ins {
+		ev[len(ev)-1].Rets = rets
+	}
 	k(st, rets)
 }
 
@@ -730,7 +733,37 @@ func (x *exec) applyContract(st *State, fr *Frame, ins ssa.Instruction, ci calle
 	if ev := st.trace; len(ev) > 0 && ev[len(ev)-1].Site == ins {
 		ev[len(ev)-1].Rets = rets
 	}
+	x.reenterHavoc(st, fr, ins, ci)
 	k(st, rets)
+}
+
+// reenterHavoc applies the unit's rely clauses ("reenter f modifies locs") after a direct call of the unit to f: code
+// reached through f (listeners, callbacks, a goroutine the call wakes) may have written the locations.
+func (x *exec) reenterHavoc(st *State, fr *Frame, ins ssa.Instruction, ci calleeInfo) {
+	if x.unit == nil || x.unit.Spec == nil || len(x.unit.Spec.Reenter) == 0 || !fr.isUnit {
+		return
+	}
+	skey := ""
+	if c, ok := ins.(ssa.CallInstruction); ok {
+		skey = staticKeyOf(c.Common())
+	}
+	for _, re := range x.unit.Spec.Reenter {
+		hit := false
+		for _, c := range re.Callees {
+			want := x.resolveCalleeName(x.unit.Spec.Pkg, c)
+			if want == ci.key || want == skey {
+				hit = true
+			}
+		}
+		if !hit {
+			continue
+		}
+		env := x.unitEnv(st, fr)
+		for _, m := range re.Mods {
+			env.havocLocation(st, m)
+		}
+		x.e.note("rely clause of %s: calls to %s may run code that writes %d listed location(s); they are forgotten after the call", x.unit.Name, shortKey(ci.key), len(re.Mods))
+	}
 }
 
 func isErrorType(t types.Type) bool {
